@@ -100,5 +100,8 @@ Idempotent ==
                \A x \in C!StoreFullTx(cs, tip, t, Ins(t), Outs(t), h, e) :
                   x \in C!StoreFullTx(x, tip, t, Ins(t), Outs(t), h, e)
 
-Inv == C!TypeOK(cs) /\ NoDoubleCount /\ MinedSpenderWins /\ ExpiredNotCounted /\ LinkComplete /\ Confluent /\ Idempotent
+\* (the two look-ahead theorems quantify over further deliveries themselves: they are evaluated in every state that
+\* still has an operation left)
+Inv == /\ C!TypeOK(cs) /\ NoDoubleCount /\ MinedSpenderWins /\ ExpiredNotCounted /\ LinkComplete
+       /\ (ops < MaxOps => Confluent /\ Idempotent)
 =====================================================================================
